@@ -279,7 +279,7 @@ func runC09(c *Ctx) {
 	w := c.W
 	d := &c09{c: c, w: w, b: sonic.NewByteBuffer()}
 	d.check("NewByteBuffer")
-	steps := w.Range(5, 60)
+	steps := w.Range(5, c.Deep(60))
 	for d.step = 0; d.step < steps; d.step++ {
 		b := d.b
 		op := ""
